@@ -8,7 +8,9 @@
 From Coq Require Import List ZArith Bool.
 From Coq Require Import PrimFloat.
 Import ListNotations.
+From DD Require Import Hash.HashModel DiffIO.DiffIOModel.
 From DD Require Import Base.Value Diff.Tree Diff.DiffModel Dist.DistModel Dist.DistProofs Dist.DistDiffModel Dist.DistDiffProofs.
+From DD Require Import Dist.DistIOModel Dist.DistIOLength Dist.DistIOProofs.
 
 (** ** number / date / time distance: range *)
 
@@ -185,3 +187,85 @@ Theorem C19_deep_distance_range_positional :
     0 < n /\ n <= m.
 Proof. exact deep_distance_positional_range. Qed.
 Print Assumptions C19_deep_distance_range_positional.
+
+(** ** the range theorem about the diff itself, ignore_order=True
+
+    [diff_io] is the model of DeepDiff's ignore-order comparison (DiffIO/DiffIOModel.v, tied to the
+    code by C05's full-result correspondence and by C19's own on the distance); the PAIRING of every
+    level is an arbitrary oracle [pairs] (whatever _get_most_in_common_pairs_in_iterables returned,
+    under any cutoff / cache / pass budget), the hasher [H] is arbitrary.
+    [dv_of_entries_io] (Dist/DistIOModel.v) is DeltaResult(ignore_order=True): added / removed items as
+    {path: {index: item}} dicts, new indexes of a repetition_change as added items, deduped by identity
+    in _get_item_length.  [io_guard]: report_repetition=False, or nothing is paired, or no list of
+    t1 holds two items with the same hash. *)
+
+(* for every pairing, what the levels report are disjoint parts of the inputs
+   (W1 / W2: plain levels by their values, added / removed / repeated items once per parent and value) *)
+Theorem C19_io_reports_disjoint_parts :
+  forall H udiff skip excl c rep pairs,
+    ignore_private c = true ->
+    forall t1 t2 p1 p2, wf t1 = true -> wf t2 = true -> io_guard H c rep pairs t1 ->
+      W1 (fst (diff_io H udiff skip excl c rep pairs t1 t2 p1 p2)) <= count t1 /\
+      W2 (fst (diff_io H udiff skip excl c rep pairs t1 t2 p1 p2)) <= count t2.
+Proof. exact io_weights. Qed.
+Print Assumptions C19_io_reports_disjoint_parts.
+
+(* the operations _get_item_length counts in the delta view of ANY list of levels are paid by those weights *)
+Theorem C19_io_operations_le_weights :
+  forall incl es rs n, tcs_ok incl es = true ->
+    item_length (dv_of_entries_io incl es rs) = LOk n -> n <= W1 es + W2 es.
+Proof. intros incl es rs n G E. exact (io_ops_bound incl es rs G n E). Qed.
+Print Assumptions C19_io_operations_le_weights.
+
+Theorem C19_deep_distance_range_ignore_order :
+  forall H udiff skip excl c rep pairs incl cutoff t1 t2 n m,
+    ignore_private c = true -> wf t1 = true -> wf t2 = true ->
+    io_guard H c rep pairs t1 ->
+    tcs_ok incl (fst (diff_io H udiff skip excl c rep pairs t1 t2 [] [])) = true ->
+    deep_distance_of_diff_io H udiff skip excl c rep pairs incl cutoff t1 t2 = RFrac n m ->
+    0 < n /\ n <= m.
+Proof. exact deep_distance_io_range. Qed.
+Print Assumptions C19_deep_distance_range_ignore_order.
+
+(* report_repetition=False (the default): every pairing, no guard on the inputs *)
+Theorem C19_deep_distance_range_ignore_order_default :
+  forall H udiff skip excl c pairs incl cutoff t1 t2 n m,
+    ignore_private c = true -> wf t1 = true -> wf t2 = true ->
+    tcs_ok incl (fst (diff_io H udiff skip excl c false pairs t1 t2 [] [])) = true ->
+    deep_distance_of_diff_io H udiff skip excl c false pairs incl cutoff t1 t2 = RFrac n m ->
+    0 < n /\ n <= m.
+Proof. exact deep_distance_io_range_norep. Qed.
+Print Assumptions C19_deep_distance_range_ignore_order_default.
+
+(* pairing switched off (max_passes=0, cutoff_intersection_for_pairs=0 ...), repetitions reported or not *)
+Theorem C19_deep_distance_range_ignore_order_unpaired :
+  forall H udiff skip excl c rep incl cutoff t1 t2 n m,
+    ignore_private c = true -> wf t1 = true -> wf t2 = true ->
+    tcs_ok incl (fst (diff_io H udiff skip excl c rep (fun _ => []) t1 t2 [] [])) = true ->
+    deep_distance_of_diff_io H udiff skip excl c rep (fun _ => []) incl cutoff t1 t2 = RFrac n m ->
+    0 < n /\ n <= m.
+Proof. exact deep_distance_io_range_unpaired. Qed.
+Print Assumptions C19_deep_distance_range_ignore_order_unpaired.
+
+(* the guard cannot be dropped: report_repetition with a paired item that is repeated in t1 -
+   [[1]]*8 vs [[1,2,3,4]], items 0 paired: 24/23 (K28; replayed on the implementation at every run) *)
+Theorem C19_deep_distance_ignore_order_rep_refuted :
+  exists H udiff skip excl c pairs incl cutoff t1 t2 n m,
+    ignore_private c = true /\ wf t1 = true /\ wf t2 = true /\
+    (forall xs ys, t1 = VList xs -> t2 = VList ys -> valid_pairs_at H c true xs ys (pairs []) = true) /\
+    tcs_ok incl (fst (diff_io H udiff skip excl c true pairs t1 t2 [] [])) = true /\
+    deep_distance_of_diff_io H udiff skip excl c true pairs incl cutoff t1 t2 = RFrac n m /\ m < n.
+Proof. exact deep_distance_io_unguarded_refuted. Qed.
+Print Assumptions C19_deep_distance_ignore_order_rep_refuted.
+
+(* the distance computed for a pairing decision when repetitions are reported (the nested run is then not
+   rewritten by mutual_add_removes_to_become_value_changes): same range *)
+Theorem C19_pair_distance_range_rep :
+  forall H udiff skip excl c pairs incl cutoff x y n m,
+    ignore_private c = true -> wf x = true -> wf y = true ->
+    io_guard H c true pairs x ->
+    tcs_ok incl (fst (diff_io H udiff skip excl c true pairs x y [] [])) = true ->
+    pair_distance H udiff skip excl c true pairs incl cutoff x y = RFrac n m ->
+    0 < n /\ n <= m.
+Proof. exact pair_distance_rep_range. Qed.
+Print Assumptions C19_pair_distance_range_rep.
